@@ -572,6 +572,13 @@ func runSpk(t *testing.T, prop string) {
 		}
 		b := &verifrt.BFS{New: func() verifrt.System { return newSpkSys(u) }, Roots: roots, MaxUser: depth, Horizon: 80, After: o.after, Res: res,
 			Deadline: time.Now().Add(verifrt.Budget())}
+		if prop == "C05" && st.preload == 1 && !st.ignore {
+			// one refused session update (Session.Set returns an error once): the retry must still publish the routes
+			spkFaultMenu = true
+			b.MaxFault = 1
+		} else {
+			spkFaultMenu = false
+		}
 		if prop == "C09" {
 			// a speaker that never settles does not converge at all: states from which no delivery order reaches quiescence
 			b.Quiescent = func(sys verifrt.System) bool { return sys.(*spkSys).settledModuloRetries() }
